@@ -69,8 +69,13 @@ theorem sequencerByRollappByStatusKey_eq :
   simp [Gen.Keys.sequencerByRollappByStatusKey, sequencerByRollappByStatusKey,
     sequencersByRollappByStatusKey_eq]
 
-/-- the decoder the source currently has is the exact (length-respecting) one -/
-theorem decodePacketKey_eq (s : Bytes) : Gen.Keys.decodePacketKey s = decodePacketKeyExact s := rfl
+/-- the decoder the source currently has — its BODY translated statement by statement over the buffer
+    primitives `b64DecodedLen` / `b64DecodeInto` / `List.take` — is the exact (length-respecting) one -/
+theorem decodePacketKey_eq (s : Bytes) : Gen.Keys.decodePacketKey s = decodePacketKeyExact s := by
+  unfold Gen.Keys.decodePacketKey decodePacketKeyExact b64DecodeInto
+  cases b64dec s with
+  | none => rfl
+  | some d => simp
 
 -- time-sorted keys / sequencer key families -------------------------------------------------------
 
